@@ -22,6 +22,7 @@ def judge (fam payload impl : String) : Verdict :=
   | "http.entry" => Http.Driver.judgeEntry payload impl
   | "kafka.conv" => Kafka.Driver.judgeConv payload impl
   | "kafka.raw" => Kafka.Driver.judgeRaw payload impl
+  | "kafka.layout" => Kafka.Driver.judgeRaw payload impl
   | "kafka.split" => Kafka.Driver.judgeSplit payload impl
   | "amqp.conv" => Amqp.Driver.judgeConv payload impl
   | "amqp.raw" => Amqp.Driver.judgeRaw payload impl
